@@ -84,6 +84,10 @@ func main() {
 
 var realStdout = os.Stdout
 
+// keep fd 2 referenced: the runtime writes fatal errors there, and an
+// unreferenced *os.File would be closed by its finalizer
+var realStderr = os.Stderr
+
 // mkdb prints on every statement; point the Go-level stdout at /dev/null.
 func silenceStdout() {
 	devnull, err := os.OpenFile(os.DevNull, os.O_WRONLY, 0)
